@@ -673,7 +673,7 @@ def main():
     with open(evid_path, "w") as f:
         json.dump(evidence, f, indent=1)
 
-    for line in known_printed:
+    for line in dict.fromkeys(known_printed):      # one line per listed finding
         print(line)
     for path, suffix in violations:
         print("VIOLATION property=%s replay=%s%s" % (pid, path, suffix))
